@@ -273,6 +273,34 @@ pub fn replay_one(idx: usize, v: &Value, rep: &Report, cnt: &mut Counts, o: &Opt
             let (r, a) = counted(|| FinderBuilder::new().build_forward(&n).find(&h));
             c.check(cnt, "FinderBuilder::build_forward.find", r.map(opt_to_i), wfind);
             c.alloc("FinderBuilder::build_forward.find", a);
+            // which strategy of the meta searcher served this search (coverage measurement only, from the step counters)
+            {
+                let f = memmem::Finder::new(&n);
+                memchr::verif::start(&[]);
+                let _ = guard(|| f.find(&h));
+                let (_, t) = memchr::verif::stop();
+                use memchr::verif::{T_PP, T_PRE, T_RK, T_TW};
+                let route = if n.is_empty() {
+                    "route.empty"
+                } else if n.len() == 1 {
+                    "route.onebyte"
+                } else if h.len() < n.len() {
+                    "route.haystack_shorter"
+                } else if t[T_PP] > 0 && t[T_TW] == 0 {
+                    "route.packed"
+                } else if t[T_TW] > 0 && t[T_PRE] > 0 && t[T_PP] > 0 {
+                    "route.twoway+vector_prefilter"
+                } else if t[T_TW] > 0 && t[T_PRE] > 0 {
+                    "route.twoway+simple_or_fallback_prefilter"
+                } else if t[T_TW] > 0 {
+                    "route.twoway"
+                } else if t[T_RK] > 0 {
+                    "route.rabinkarp"
+                } else {
+                    "route.other"
+                };
+                cnt.add(route, 1);
+            }
             // an owned finder: only the conversion itself may allocate
             #[cfg(feature = "alloc")]
             if let Ok(own) = guard(|| memmem::Finder::new(&n).into_owned()) {
